@@ -252,6 +252,22 @@ def replay_verify(w):
         want = ref_verify(pk.point, z, rr, ss)
         if got != want:
             return {"violated": True, "observed": f"verify(z={z:#x}, r={rr:#x}, s={ss:#x}) = {got}, specification = {want} (s = genuine s {ks:+d}*N, r {kr:+d}*N)"}
+    # the same class with the model's own residues: a tuple whose s (and r) are exactly the model's values, made valid by
+    # solving the digest for a chosen nonce (z2 = s0*k - r0*d mod N)
+    s0 = s % N
+    if s0:
+        for k in (1, 2, 3, 5):
+            r0 = (k * pecc.G).x.num
+            z2 = (s0 * k - r0 * d) % N
+            for (rr, ss) in ((r0 + kr * N, s), (r0, s), (r0 + kr * N, s0)):
+                try:
+                    got = bool(pk.point.verify(z2, pecc.Signature(rr, ss)))
+                except Exception:
+                    got = False
+                want = ref_verify(pk.point, z2, rr, ss)
+                if got != want:
+                    return {"violated": True, "observed": f"verify(z={z2:#x}, r={rr:#x}, s={ss:#x}) = {got}, specification = {want} "
+                                                          f"(digest solved for nonce {k} so that s mod N is the model's)"}
     return {"violated": False, "observed": "no disagreement on the reconstructed tuples"}
 
 
